@@ -99,3 +99,15 @@ func decodeBatch(dgram []byte, compact bool) (batch m3thrift.MetricBatch, seq in
 	}
 	return args.Batch, seqid, true, ""
 }
+
+// deadUDPAddr returns a loopback address nobody listens on: a connected UDP socket sending there gets
+// ECONNREFUSED on every other send (the ICMP answer to the previous datagram).
+func deadUDPAddr() string {
+	c, err := net.ListenUDP("udp", &net.UDPAddr{IP: net.IPv4(127, 0, 0, 1)})
+	if err != nil {
+		fatal("listen udp: %v", err)
+	}
+	a := c.LocalAddr().String()
+	c.Close()
+	return a
+}
